@@ -25,6 +25,9 @@ type c19bCase struct {
 	Batches []int `json:"batches"` // sizes of appended batches
 	Overlap []int `json:"overlap"` // how many already-known sets each batch repeats at its start
 	Readers int   `json:"readers"`
+	// Appenders > 1: that many goroutines deliver each batch concurrently (the periodic refresh and the
+	// lookup-triggered fetch both obtain the same new sets from the chain), each re-reading a few known sets
+	Appenders int `json:"appenders"`
 }
 
 func mkSet(i int) *common.GuardianSet {
@@ -87,7 +90,28 @@ func runC19b(c c19bCase) (*vh.Violation, vh.Outcome) {
 		for i := next - ov; i < next+sz; i++ {
 			batch = append(batch, mkSet(i))
 		}
-		_ = gs.updateGuardianSets(batch)
+		if c.Appenders <= 1 {
+			_ = gs.updateGuardianSets(batch)
+		} else {
+			var aw sync.WaitGroup
+			for a := 0; a < c.Appenders; a++ {
+				aw.Add(1)
+				go func(a int) {
+					defer aw.Done()
+					// every deliverer saw the chain at the same height but re-reads a different number of known sets
+					from := next - ov - a
+					if from < 0 {
+						from = 0
+					}
+					var b []*common.GuardianSet
+					for i := from; i < next+sz; i++ {
+						b = append(b, mkSet(i))
+					}
+					_ = gs.updateGuardianSets(b)
+				}(a)
+			}
+			aw.Wait()
+		}
 		next += sz
 		atomic.StoreInt64(&known, int64(next))
 		time.Sleep(200 * time.Microsecond)
@@ -111,7 +135,7 @@ func runC19b(c c19bCase) (*vh.Violation, vh.Outcome) {
 func TestVerif_C19_Lookup(t *testing.T) {
 	vh.Check(t, vh.Prop[c19bCase]{ID: "C19", Gen: func(t *rapid.T) c19bCase {
 		nb := rapid.IntRange(0, 12).Draw(t, "nbatches")
-		c := c19bCase{Initial: rapid.IntRange(1, 4).Draw(t, "initial"), Readers: rapid.IntRange(1, 4).Draw(t, "readers")}
+		c := c19bCase{Initial: rapid.IntRange(1, 4).Draw(t, "initial"), Readers: rapid.IntRange(1, 4).Draw(t, "readers"), Appenders: rapid.SampledFrom([]int{1, 1, 2, 3, 8}).Draw(t, "appenders")}
 		for i := 0; i < nb; i++ {
 			c.Batches = append(c.Batches, rapid.IntRange(1, 4).Draw(t, "size"))
 			c.Overlap = append(c.Overlap, rapid.IntRange(0, 2).Draw(t, "overlap"))
